@@ -122,6 +122,74 @@ def _post_cg(snap, res, graph, event):
             return
         if p0 > 0:
             kernel.count("C18:positive-probability-cases")
+    # what the GRAPH says about the relabelled event: parts of the event in different connected components, and event
+    # variables that are m-separated in it, are independent in every compatible model (ID* multiplies over them)
+    if problems or not g2.is_acyclic():
+        return
+    conj = {k: gev.from_event({k: v})[0] for k, v in new_event.items()}
+    comp_of = {}
+    for i, comp in enumerate(_components(g2)):
+        for v in comp:
+            comp_of[v] = i
+    groups: dict = {}
+    for k in conj:
+        groups.setdefault(comp_of[k], []).append(conj[k])
+    keys_l = sorted(conj, key=str)
+    sep_pairs = [(a, b) for i, a in enumerate(keys_l) for b in keys_l[i + 1:] if g2.m_separated(a, b, set())]
+    kernel.count("C18:graph-claims-checked")
+    for h, m, rv, av in mv:
+        if len(groups) > 1:
+            kernel.count("C18:component-factorisations-compared")
+            prod = 1
+            for grp in groups.values():
+                prod *= event_prob(m, grp, rv, av)
+            p1 = event_prob(m, new_ev, rv, av)
+            if prod != p1:
+                kernel.violation("C18", "graph-describes-event",
+                                 f"the counterfactual graph of {gev.key(ev)} puts the relabelled event {gev.key(new_ev)} into "
+                                 f"{len(groups)} connected components {[gev.key(g_) for g_ in groups.values()]}, but "
+                                 f"P(event') = {p1} while the product over the components is {prod} (model seed {h[:12]}, "
+                                 f"cards {m.card}); graph {case['graph']}; returned edges D={sorted(f'{u}->{v}' for u, v in g2.D)} "
+                                 f"B={sorted('<->'.join(sorted(map(str, e))) for e in g2.B)}", case=case)
+                return
+        for a, b in sep_pairs:
+            kernel.count("C18:separated-pairs-compared")
+            for sa in (False, True):
+                for sb in (False, True):
+                    ca, cb = [conj[a][0], conj[a][1], sa], [conj[b][0], conj[b][1], sb]
+                    if event_prob(m, [ca, cb], rv, av) != event_prob(m, [ca], rv, av) * event_prob(m, [cb], rv, av):
+                        kernel.violation("C18", "graph-describes-event",
+                                         f"{a} and {b} are m-separated in the counterfactual graph of {gev.key(ev)} but "
+                                         f"dependent in a compatible model (seed {h[:12]}, cards {m.card}); graph "
+                                         f"{case['graph']}; returned edges D={sorted(f'{u}->{v}' for u, v in g2.D)} "
+                                         f"B={sorted('<->'.join(sorted(map(str, e))) for e in g2.B)}", case=case)
+                        return
+
+
+def _components(g: RG):
+    adj = {v: set() for v in g.V}
+    for u, v in g.D:
+        adj[u].add(v)
+        adj[v].add(u)
+    for e in g.B:
+        e = list(e)
+        if len(e) == 2:
+            adj[e[0]].add(e[1])
+            adj[e[1]].add(e[0])
+    seen, out = set(), []
+    for v in g.V:
+        if v in seen:
+            continue
+        comp, st = {v}, [v]
+        while st:
+            x = st.pop()
+            for y in adj[x]:
+                if y not in comp:
+                    comp.add(y)
+                    st.append(y)
+        seen |= comp
+        out.append(comp)
+    return out
 
 
 def _raise_cg(snap, exc, graph, event):
